@@ -259,8 +259,6 @@ class Real:
     # -- operations
     def sql(self, stmts):
         """Harness-side edit of the real file; a no-op when the file cannot be opened as a database."""
-        if not self.path.exists():
-            return False
         try:
             conn = sqlite3.connect(self.path)
             try:
@@ -275,10 +273,6 @@ class Real:
             return True
         except sqlite3.DatabaseError:
             return False
-
-    def table_state(self):
-        s = self.snapshot()
-        return s
 
     def apply(self, op):
         """Performs a non-parse operation for real."""
@@ -305,7 +299,7 @@ class Real:
                 conn.close()
                 val = b"\x80\x04\x95" if r is None or not isinstance(r[0], bytes) or len(r[0]) < 8 else r[0][:len(r[0]) // 2]
             self.sql([("UPDATE models SET data=? WHERE txt_hash=? AND pymoca_version=?", (val, self.pool.hash[x], ver_str(v)))])
-            if name == "none":
+            if name == "none" and any(r[0] == x and r[1] == v for r in snap["models"]["rows"]):
                 self.planted_none.add((x, v))
         elif k == "clayout":
             _, tbl, how = op
@@ -395,23 +389,40 @@ def damaging(op):
     return op[0] == "cfile" or (op[0] == "clayout" and op[1] == "models" and op[2] in ("drop", "alien"))
 
 
-def unsynced_at(ops, upto):
-    """Was the file damaged (deleted / overwritten / models table dropped or replaced by an alien one) after the
-    process initialised it, with no module reload since — at the time op number `upto` (1-based) ran?"""
-    init, dirty_or_damaged = False, False
-    ver_dirty = False
-    for op in ops[:upto - 1]:
+class Tracker:
+    """What the generator / the known-finding predicate need to know about a history prefix, computed from the
+    operations alone: is the database in `initialized_dbs`, and can its `models` table be queried."""
+
+    def __init__(self):
+        self.init = False
+        self.dirty = False
+        self.file = "noquery"      # "garbage" | "noquery" (database without a usable models table) | "query"
+
+    def unsynced(self):
+        return self.init and self.file != "query"
+
+    def feed(self, op):
         k = op[0]
         if k == "reload":
-            init, dirty_or_damaged = False, False
+            self.init = False
         elif k == "setver":
-            ver_dirty = bool(op[2])
+            self.dirty = bool(op[2])
         elif k == "parse":
-            if not op[4] and not ver_dirty and not (init and dirty_or_damaged):
-                init = True
-        elif damaging(op) and init:
-            dirty_or_damaged = True
-    return init and dirty_or_damaged
+            if not op[4] and not self.dirty and not self.unsynced():
+                self.init, self.file = True, "query"
+        elif k == "cfile":
+            self.file = "garbage" if op[1] in ("text", "header") else "noquery"
+        elif k == "clayout" and op[1] == "models" and self.file != "garbage":
+            self.file = "query" if op[2] == "nopk" else "noquery"
+
+
+def unsynced_at(ops, upto):
+    """Was the file deleted / overwritten / stripped of a usable `models` table after the process initialised
+    it, with no module reload since — at the time operation number `upto` (1-based) ran?"""
+    t = Tracker()
+    for op in ops[:upto - 1]:
+        t.feed(op)
+    return t.unsynced()
 
 
 # ---- one history -----------------------------------------------------------------------------
@@ -461,7 +472,7 @@ def check_history(ctx, pool, ops, drv, caught, case_extra=None):
             after_raw = real.snapshot(raw=True)
             msg = rows_oracle(real, pool, before_raw, after_raw, x)
             if msg:
-                ctx.violation(msg, c, kind="history")
+                ctx.violation(msg[0], c, observed=msg[1], kind="history")
                 break
     finally:
         real.close()
@@ -493,16 +504,16 @@ def rows_oracle(real, pool, before, after, x):
     for r in after["models"]["rows"]:
         kind = real.blob_kind(r[2])
         if kind == ["good", None] and (r[0], r[1]) not in real.planted_none:
-            return "a row that unpickles to None was stored (text %d, version %d)" % (r[0], r[1])
+            return "a row that unpickles to None was stored", {"text": r[0], "version": r[1]}
         if (r[0], r[1], r[2]) in old:
             continue
         # a row written by this call
         if r[0] < 0 or r[1] < 0 or r[1] >= 100:
-            return "parse wrote a row for an unknown text/version"
+            return "parse wrote a row for an unknown text/version", {"text": r[0], "version": r[1]}
         if kind[0] != "good" or kind[1] is None or kind[1] != pool.tid(pool.fresh_key[r[0]]):
-            return "parse stored a row that does not unpickle to the fresh tree of its text (text %d)" % r[0]
+            return "parse stored a row that does not unpickle to the fresh tree of its text", {"text": r[0], "blob": kind}
         if pool.fresh_key[r[0]] is None:
-            return "a failed parse was stored"
+            return "a failed parse was stored", {"text": r[0]}
     return None
 
 
@@ -516,24 +527,18 @@ def gen_history(rng, pool, maxlen, guarded):
     ops = []
     ntext = len(pool.texts)
     hot = [rng.randrange(ntext) for _ in range(3)]   # texts parsed again and again (hits)
-    init = False
-    dirty = False
+    tr = Tracker()
     if rng.random() < 0.3:
         ops.append(["setinc", rng.choice([1, 7, 1000])])
     while len(ops) < n:
         r = rng.random()
         if r < 0.50:
             x = rng.choice(hot) if rng.random() < 0.7 else rng.randrange(ntext)
-            bypass = rng.random() < 0.05
-            ops.append(["parse", x, rng.choice(DAYS), rng.random() < 0.3, bypass])
-            if not bypass and not dirty:
-                init = True
+            ops.append(["parse", x, rng.choice(DAYS), rng.random() < 0.3, rng.random() < 0.05])
         elif r < 0.60:
             ops.append(["reload"])
-            init = False
         elif r < 0.66:
-            dirty = rng.random() < 0.15
-            ops.append(["setver", rng.randrange(len(REAL_VERSIONS)), dirty])
+            ops.append(["setver", rng.randrange(len(REAL_VERSIONS)), rng.random() < 0.15])
         elif r < 0.76:
             ops.append(["tick", rng.choice(TICKS)])
         elif r < 0.86:
@@ -547,9 +552,10 @@ def gen_history(rng, pool, maxlen, guarded):
             ops.append(["cfile", rng.choice(["delete", "empty", "text", "header"])])
         else:
             ops.append(["foreign", rng.choice(hot), rng.choice([100, 101]), rng.choice([0, 2, 40])])
-        if guarded and damaging(ops[-1]) and init:
+        tr.feed(ops[-1])
+        if guarded and tr.unsynced():
             ops.append(["reload"])
-            init = False
+            tr.feed(ops[-1])
     return ops
 
 
@@ -560,11 +566,21 @@ def faulty(ops):
 
 def caught_classes():
     """Exception classes caught around pickle.loads in parse(), read from the source with `ast`."""
+    return a01.extract()["caught_unpickle"]
+
+
+def translate(ctx):
+    """Generated/SqlProgram.lean (shared with C02) carries the classes caught around pickle.loads."""
     from harness.props import c02
-    return c02.extract()["caught_unpickle"]
+    c02.translate(ctx)
 
 
 def run(ctx):
+    with a01.Quiet():
+        _run(ctx)
+
+
+def _run(ctx):
     from harness import corpus
     drv = ctx.driver("drv_c01")
     quick = ctx.tier == "quick"
@@ -590,7 +606,7 @@ def run(ctx):
         if ctx.time_left() < 0:
             ctx.notes.append("histories stopped by the time budget after %d" % i)
             break
-        guarded = ctx.rng.random() < 0.85      # the other stream exercises the open finding C01-F1
+        guarded = ctx.rng.random() < 0.85      # the other stream exercises the open finding C01-F2
         ops = gen_history(ctx.rng, pool, maxlen, guarded)
         hit = check_history(ctx, pool, ops, drv, caught)
         ctx.case({"ops": ops}, nontrivial=bool(hit) and faulty(ops))
@@ -607,7 +623,8 @@ def replay(ctx, payload):
     except Exception:
         caught = ["Exception"]
     ops = c["ops"][:c["upto"]] if "upto" in c else c["ops"]
-    check_history(ctx, Pool.from_texts(c["texts"]), ops, ctx.driver("drv_c01"), caught)
+    with a01.Quiet():
+        check_history(ctx, Pool.from_texts(c["texts"]), ops, ctx.driver("drv_c01"), caught)
 
 
 MANIFEST = dict(
@@ -618,7 +635,7 @@ MANIFEST = dict(
                "correspondence on real SQLite files (outcome + abstract file snapshot after every operation) and a "
                "direct fresh-parse oracle.",
     level_note="Trusted: Lean kernel + standard axioms; the harness; SHA-256 injective on the pool; pickle round trip. "
-               "Open finding C01-F1 (file damaged after the process initialised it) is excluded by hypothesis and has a "
+               "Open finding C01-F2 (file damaged after the process initialised it) is excluded by hypothesis and has a "
                "proved counterexample.",
     technique="Lean 4 proof (invariant by induction over operation histories) + model/implementation correspondence",
 )
